@@ -295,6 +295,22 @@ func init() {
 	ops["keypair"] = opKeypair
 	calls["getbytes"] = callGetBytes
 	calls["getbytesall"] = callGetBytesAll
+	calls["jsonvalid"] = callJSONValid
+}
+
+// jsonvalid <hex>: encoding/json's verdict on arbitrary bytes (the reference for the model's JSON recogniser)
+func callJSONValid(st *state, args []string) []string {
+	if len(args) != 1 {
+		return []string{"bad-op"}
+	}
+	d, ok := unhex(args[0])
+	if !ok {
+		return []string{"bad-op"}
+	}
+	if json.Valid(d) {
+		return []string{"res ok", "valid=1"}
+	}
+	return []string{"res ok", "valid=0"}
 }
 
 // keypair <cid> <msg1 tokens> | <msg2 tokens>: the partition keys of two messages
